@@ -139,32 +139,51 @@ def run_driver(lines, timeout=1800):
     return out
 
 # ----------------------------------------------------------------------------- implementation
-def run_impl(build_dir, module, cases, timeout_per_batch=1800, extra_env=None):
+def run_impl(build_dir, module, cases, timeout_per_case=180, extra_env=None):
     """Run harness/props/<module>.py:impl_case on each case in a subprocess whose bioscrape is the
-    scratch build.  A crash of the subprocess is an observation ("CRASH <signal>") for the case
-    it died on; the run continues with the next case."""
+    scratch build.  A crash of the subprocess is an observation ({"crash": ...}) for the case it died
+    on, a case that produces nothing for timeout_per_case seconds is killed ({"timeout": ...}); the
+    run continues with the next case."""
+    import selectors
     results = [None] * len(cases)
     start = 0
     env = dict(os.environ, PYTHONPATH=build_dir + os.pathsep + VERIF, PYTHONHASHSEED="0", BIOSCRAPE_VERIF="1",
                OMP_NUM_THREADS="1", OPENBLAS_NUM_THREADS="1", MKL_NUM_THREADS="1")
     if extra_env: env.update(extra_env)
     while start < len(cases):
+        errf = open(os.path.join("/var/tmp", "bioscrape_verif", ".impl_stderr_%d" % os.getpid()), "w+")
         p = subprocess.Popen([PY, os.path.join(VERIF, "harness", "impl_runner.py"), module],
-                             stdin=subprocess.PIPE, stdout=subprocess.PIPE, stderr=subprocess.PIPE, text=True, env=env, cwd="/var/tmp")
+                             stdin=subprocess.PIPE, stdout=subprocess.PIPE, stderr=errf, text=True, env=env, cwd="/var/tmp")
         inp = "\n".join(json.dumps(c) for c in cases[start:]) + "\n"
-        try:
-            out, err = p.communicate(inp, timeout=timeout_per_batch)
-        except subprocess.TimeoutExpired:
-            p.kill(); out, err = p.communicate()
-            err = (err or "") + "\nTIMEOUT"
-        lines = [l for l in out.split("\n") if l.startswith("@@")]
-        for k, l in enumerate(lines):
-            results[start + k] = json.loads(l[2:])
-        done = len(lines)
-        if start + done >= len(cases):
-            break
-        # the subprocess died on case start+done
-        results[start + done] = {"crash": "rc=%s" % p.returncode, "stderr": (err or "")[-800:]}
+        import threading
+        def feed():
+            try:
+                p.stdin.write(inp); p.stdin.close()
+            except Exception: pass
+        threading.Thread(target=feed, daemon=True).start()
+        done = 0; killed = False
+        sel = selectors.DefaultSelector(); sel.register(p.stdout, selectors.EVENT_READ)
+        buf = ""
+        last = time.time()
+        while True:
+            ev = sel.select(timeout=5)
+            if ev:
+                chunk = os.read(p.stdout.fileno(), 1 << 16).decode("utf-8", "replace")
+                if chunk == "": break
+                buf += chunk
+                while "\n" in buf:
+                    line, buf = buf.split("\n", 1)
+                    if line.startswith("@@"):
+                        results[start + done] = json.loads(line[2:]); done += 1; last = time.time()
+            elif p.poll() is not None:
+                break
+            if time.time() - last > timeout_per_case:
+                p.kill(); killed = True; break
+        p.wait()
+        errf.seek(0); err = errf.read(); errf.close()
+        if start + done >= len(cases): break
+        results[start + done] = ({"timeout": "no result within %ds" % timeout_per_case} if killed
+                                 else {"crash": "rc=%s" % p.returncode, "stderr": (err or "")[-800:]})
         start = start + done + 1
     return results
 
